@@ -60,8 +60,8 @@ def exact_dur(st):
     or round(len + frac) for the enveloped generator whose duration is (len + frac)/fs (frac is never a tie)."""
     from fractions import Fraction
     if st['src'] == 'cos2':
-        return int(round(Fraction(st['len']) + Fraction(str(st.get('frac', 0)))))
-    return st['len']
+        return int(round(Fraction(st['len']) + Fraction(str(st.get('frac', 0))))) + st.get('xdur', 0)
+    return st['len'] + st.get('xdur', 0)
 
 
 def delay_samples(d, fs):
@@ -276,7 +276,13 @@ def _drive(case, q, tr, fs, t0):
         ds = st['delays']
         tr.delays.append([delay_samples(d, fs) for d in ds])
         delays = ds[0] / fs if len(ds) == 1 else itertools.cycle([d / fs for d in ds])
-        keys.append(q.append(src, st['trials'], delays=delays))
+        if st.get('xdur'):
+            # the caller declares a duration longer than the waveform (append(..., duration=...))
+            dur = dur + st['xdur']
+            tr.durs[-1] = dur
+            keys.append(q.append(src, st['trials'], delays=delays, duration=dur / fs))
+        else:
+            keys.append(q.append(src, st['trials'], delays=delays))
         tr.lines.append(f'ok {i}')
 
     dead = False
@@ -357,6 +363,7 @@ def model_lines(case, use_tick=False):
         _, n, dur, ref = make_source(st, i, fs)
         zs = [int(j) for j in np.flatnonzero(np.asarray(ref) == 0)]
         kind = 'arr' if st['src'] == 'arr' else 'gen'
+        dur = dur + st.get('xdur', 0)
         lines.append(f"append {kind} {n} {st['trials']} {_lst([delay_samples(d, fs) for d in st['delays']])} "
                      f"{dur} {_lst(zs)}")
     for op in case['ops']:
@@ -415,7 +422,7 @@ def rand_stims(rng, n, max_len=12, max_trials=3, srcs=('arr', 'arr', 'fixed', 'c
     for _ in range(n):
         src = rng.choice(srcs)
         nd = rng.choice([1, 1, 1, 2, 3])
-        delays = [rng.choice([0, 0, 0.4, 1, 2, 3, 3.6, 7]) for _ in range(nd)]
+        delays = [rng.choice([0, 0, 0.4, 0.5, 1, 2, 2.5, 3, 3.6, 4.5, 7]) for _ in range(nd)]   # incl. exact .5 ties
         st = {'src': src, 'len': rng.randint(1, max_len), 'trials': rng.randint(1, max_trials),
               'delays': delays}
         if src == 'cos2':
